@@ -341,6 +341,7 @@ func init() {
 	}
 	intrinsics["(*sync.Map).Load"] = func(e *Engine, fr *frame, fn *ssa.Function, args []Value) Value {
 		e.yield("sync.Map.Load")
+		e.syncAcqRel(args[0].(*Value))
 		m := smap(e, args[0].(*Value))
 		if i := e.mapFind(m, args[1]); i >= 0 {
 			return Tuple{m.Vals[i], e.st.True}
@@ -349,11 +350,13 @@ func init() {
 	}
 	intrinsics["(*sync.Map).Store"] = func(e *Engine, fr *frame, fn *ssa.Function, args []Value) Value {
 		e.yield("sync.Map.Store")
+		e.syncAcqRel(args[0].(*Value))
 		e.mapSet(smap(e, args[0].(*Value)), args[1], args[2])
 		return nil
 	}
 	intrinsics["(*sync.Map).LoadOrStore"] = func(e *Engine, fr *frame, fn *ssa.Function, args []Value) Value {
 		e.yield("sync.Map.LoadOrStore")
+		e.syncAcqRel(args[0].(*Value))
 		m := smap(e, args[0].(*Value))
 		if i := e.mapFind(m, args[1]); i >= 0 {
 			return Tuple{m.Vals[i], e.st.True}
@@ -364,6 +367,7 @@ func init() {
 	}
 	intrinsics["(*sync.Map).Delete"] = func(e *Engine, fr *frame, fn *ssa.Function, args []Value) Value {
 		e.yield("sync.Map.Delete")
+		e.syncAcqRel(args[0].(*Value))
 		e.mapDelete(smap(e, args[0].(*Value)), args[1])
 		return nil
 	}
@@ -373,6 +377,7 @@ func init() {
 		vals := append([]Value{}, m.Vals...)
 		for i := range keys {
 			e.yield("sync.Map.Range")
+			e.syncAcqRel(args[0].(*Value))
 			r := e.callValue(fr, args[1], []Value{keys[i], vals[i]})
 			if !e.branch(r.(*Term)) {
 				break
